@@ -58,6 +58,12 @@ pub fn gen_oti(rng: &mut Rng, fec: Fec) -> OtiSpec {
     let mut o = OtiSpec::new(fec, e, b, parity.min(255 - b.min(254)));
     o.al = al;
     o.inband_fti = rng.chance(1, 2);
+    // RaptorQ sub-blocks: N > 1 for one OTI in three, bounded by T/Al (the sub-symbol sizes are partition(T/Al, N) * Al,
+    // so values of N that do not divide T/Al are the interesting ones)
+    if fec == Fec::RaptorQ && rng.chance(1, 3) {
+        let units = (e as u32 / al as u32).max(1);
+        o.n = (rng.range(2, 5) as u32).min(units) as u16;
+    }
     o
 }
 
@@ -240,6 +246,9 @@ pub fn gen_session(rng: &mut Rng, o: &GenOpts) -> (SenderSpec, Vec<ObjSpec>) {
 /// Adjust a default OTI so that an FDT instance of up to ~16 KiB fits flute's
 /// own limits for the scheme and (Raptor) never produces a block below 4 symbols.
 pub fn make_fdt_capable(oti: &mut OtiSpec) {
+    // the FDT is reassembled by the harness from contiguous E-byte slices: no RaptorQ sub-blocking for the OTI that
+    // carries the FDT (N > 1 is generated for object OTIs only)
+    oti.n = 1;
     let flute_blocks: u64 = match oti.fec {
         Fec::NoCode | Fec::Raptor => 65535,
         Fec::Rs28 | Fec::RaptorQ => 255,
